@@ -327,10 +327,12 @@ def run(ctx):
     ctx.rule("R7b", "parse-layer inventory of panic-capable constructs with local discharge patterns")
     ctx.rule("R7-ovf", "overflow-checked arithmetic whose operand is a wire-controlled integer (C17's taint: parsed integer, decoder value, wire-filled field) is reviewed for a bound")
     ctx.rule("R6d", "must-validate-before-trust for every trusting streaming decoder outside hexane")
+    ctx.rule("R7-pair", "field pairing behind an expect: ValueState::list_flush expects `replaced` of an exposed value; every construction / update of the patch-state value that can set `expose` also sets `replaced` to Some")
     ctx.rule("R8-actoridx", "Columns::load: every column of actor indexes that goes into the op set is the receiver of an Iterator::all bound check (index < actors.len())")
     f = ctx.facts()
     check_r7a(ctx, f, "C15")
     check_actor_columns(ctx, f)
+    check_expose_pair(ctx, f)
     # ---------------- R7b
     ptable = ctx.table("panic_sites.tsv")
     G = guarantees(ctx, f)
@@ -436,3 +438,58 @@ def check_actor_columns(ctx, f):
         ok = bool(ls & checked)
         ctx.ob("R8-actoridx", "Columns::load|%s range-checked" % fld, ok, b.rec["sp"], "receiver of an all(index < actors.len()) check" if ok else
                "the actor indexes of column %s are never compared with the size of the actor table: a document naming an actor outside its table is accepted and indexes out of bounds later (ActorMapper / clocks)" % fld)
+
+
+
+def check_expose_pair(ctx, f):
+    """`(Some(d), None) if d.expose => d.replaced.expect(..)` in the text branch of list_flush: the invariant expose => replaced.is_some() is
+    established where the value is built"""
+    OV = "automerge::op_set2::change::batch::OpValue"
+    n = 0
+    for p, r in sorted(f.fns.items()):
+        if r["ckey"] != ("automerge", "lib") or "op_set2::change::batch::" not in p or " as core::clone::Clone>" in p:
+            continue
+        b = None
+        for bi, blk in enumerate(r["blocks"]):
+            if blk.get("cleanup"):
+                continue
+            for st in blk["st"]:
+                rv = st["rv"]
+                if rv["k"] == "Agg" and rv.get("adt") == OV and "expose" in rv.get("fields", []):
+                    b = b or cfg.body(r)
+                    n += 1
+                    ctx.analysed_fns.add(p)
+                    eo = rv["o"][rv["fields"].index("expose")]
+                    k = util.op_const(eo)
+                    if k is not None and k.get("v") == "0":
+                        ctx.ob("R7-pair", "%s|OpValue built with expose = false" % norm_fn(p).split("::")[-1], True, st["sp"], "never exposed here", nontrivial=False)
+                        continue
+                    ro = rv["o"][rv["fields"].index("replaced")]
+                    pv = b.provenance(ro, through_calls=True)
+                    lit_none_only = (("core::option::Option", "None") in pv.aggs) and not any(v == "Some" for a, v in pv.aggs if a == "core::option::Option") and not any((norm_fn(c) or "").split("::")[-1] in ("then", "then_some") for c in pv.callees())
+                    # tied to the same condition: `expose.then(..)`
+                    tied = any((norm_fn(c) or "").split("::")[-1] in ("then", "then_some") for c in pv.callees()) and bool(b.provenance(eo, through_calls=False).locals & pv.locals)
+                    ok = not lit_none_only and (tied or any(v == "Some" for a, v in pv.aggs if a == "core::option::Option"))
+                    ctx.ob("R7-pair", "%s|OpValue built with a computed expose flag" % norm_fn(p).split("::")[-1], ok, st["sp"],
+                           "replaced is Some whenever expose is set (same condition)" if ok else
+                           "a value can be marked exposed while `replaced` is None: ValueState::list_flush expects the replaced value of an exposed text value and panics (merge of a change deleting the losing value of a text conflict)")
+    ctx.floor("OpValue constructions in the patch-state machinery", n, 1)
+    # the in-place update: expose = true is stored together with replaced = Some(..)
+    EX = [p for p in f.fns if norm_fn(p).endswith("batch::OpValueOption::expose")]
+    if not EX:
+        raise facts.AnchorMissing("OpValueOption::expose")
+    eb = ctx.body(EX[0])
+    sets_e = sets_r = False
+    for blk in eb.blocks:
+        for st in blk["st"]:
+            pr = "".join(st["d"]["p"])
+            if pr.endswith(".expose"):
+                sets_e = True
+            if pr.endswith(".replaced"):
+                rv = st["rv"]
+                if rv["k"] == "Agg" and rv.get("variant") == "Some":
+                    sets_r = True
+                elif rv.get("o"):
+                    pv = eb.provenance(rv["o"][0], through_calls=False)
+                    sets_r = sets_r or (("core::option::Option", "Some") in pv.aggs and ("core::option::Option", "None") not in pv.aggs)
+    ctx.ob("R7-pair", "OpValueOption::expose|sets both fields", sets_e and sets_r, eb.rec["sp"], "expose = true and replaced = Some(..)" if sets_e and sets_r else "expose is set without a replaced value")
